@@ -148,9 +148,8 @@ def sum_case(case):
         for tm in terms:
             want += list(time_evolution_for_term(mk_term(tm), t / steps).operations)
     structural = len(cs.operations) == len(want) and all(a == b for a, b in zip(cs.operations, want))
-    if not structural:
-        return {"ok": False, "msg": "evolution circuit is not the concatenation, per step and in the listed order, of the per-term circuits for t/steps",
-                "expected": str([str(o) for o in want])[:500], "observed": str([str(o) for o in cs.operations])[:500], "sig": "sum:structure"}
+    # structural equality is a CERTIFICATE (with C01 and the per-term all-t verdict it extends the matrix identity to every t); a circuit
+    # that differs structurally (e.g. merges commuting duplicates) may still be correct, so it is only judged by its matrix on the time grid
     k = 1
     for tt in case["times"]:
         circ = time_evolution(H, tt, n_steps=steps)
@@ -163,7 +162,7 @@ def sum_case(case):
             return {"ok": False, "msg": "U(time_evolution(H, %s, steps=%d)) is not the ordered product of exp(-i t/steps c_j P_j)" % (tt, steps), "sig": "sum:matrix",
                     "expected": str(np.round(exp, 4).tolist())[:300], "observed": str(np.round(U, 4).tolist())[:300], "ops": k}
     nc = sum(1 for _, o in terms if o)
-    return {"ok": True, "nt": nc >= 2, "ops": k, "out": "steps%d" % steps}
+    return {"ok": True, "nt": nc >= 2, "ops": k, "out": "steps%d%s" % (steps, "" if structural else ":grid-only"), "extra": {"certified": int(structural)}}
 
 
 def pauli_strings(n):
